@@ -50,9 +50,8 @@ class Robust(Part):
         if r.violated != "CostLen":
             raise MachineryError("the NoReset deviation no longer violates CostLen: the model has lost its teeth")
         # TLAPS side-car (not the deciding mechanism): with the reset the cost-vector law is inductive for any number of batches and designs
-        proved = tlc.tlapm("proofs/RobustLaws.tla", ctx.scratch)
-        ctx.notes.append("tlapm proofs/RobustLaws.tla: %d obligations proved (reset keeps 'UserM + 1 costs, processed once' inductive; "
-                         "without the reset the invariant breaks)" % proved)
+        tlc.sidecar(ctx, "tlapm proofs/RobustLaws.tla (reset keeps 'UserM + 1 costs, processed once' inductive; without the reset the "
+                    "invariant breaks)", tlc.tlapm, "proofs/RobustLaws.tla", ctx.scratch)
         return runs
 
     def cases(self, ctx):
